@@ -1,6 +1,6 @@
 """C07 -- trash-put picks the trash dir the spec prescribes, on the file's own volume."""
 from .common import *  # noqa
-from .putroles import PutRoles
+from .putroles import PutRoles, candidate_sites
 from .c05 import volume_equalities, involves_volumes, fallback_guards
 from .c20 import dir_kind
 
@@ -39,11 +39,7 @@ def check(ctx):
     b, g = r.b, r.g
     opts = {o['dest']: o for o in r.opts}
     # ---- R07.1 candidate table
-    cands = []
-    for n in b.nodes('append'):
-        for a in flat(n.data['value']):
-            if isinstance(a, Obj) and 'trash_dir_path' in a.fields and 'gate' in a.fields:
-                cands.append((n, a))
+    cands = candidate_sites(b)
     ctx.require(cands, 'R07.1: no candidate construction found')
     td_dest = [o['dest'] for o in r.opts if '--trash-dir' in o['flags']]
     hf_dest = [o['dest'] for o in r.opts if '--home-fallback' in o['flags']]
